@@ -6,8 +6,10 @@ evaluate the property's predicate on that observation and compare it with the mo
 The labelling function's result per ID (computed here, independently of the library's own
 iteration) is the model's input.
 """
+import contextlib
 import copy
 import json
+import warnings
 
 from . import core
 
@@ -72,11 +74,25 @@ def gen_axis_md(rng, ids, kind):
     return md
 
 
+def awkward_ids(rng, ids):
+    """sometimes: an ID ending in a blank / newline, an ID that extends another one, a very long ID
+    (IDs live in fixed-width arrays; collapsed_ids and parts must carry them unchanged)"""
+    ids = list(ids)
+    if rng.random() < 0.2:
+        k = rng.randrange(len(ids))
+        c = rng.choice(["blank", "newline", "extend", "long"])
+        new = {"blank": ids[k] + " ", "newline": ids[k] + "\n", "extend": ids[0] + "0",
+               "long": ids[k] + "_" * 40 + "é"}[c]
+        if new not in ids:
+            ids[k] = new
+    return ids
+
+
 def gen_spec(rng, max_n, max_m):
     n = rng.randint(1, max_n)
     m = rng.randint(1, max_m)
-    obs = core.gen_ids(rng, n, "O")
-    samp = core.gen_ids(rng, m, "S")
+    obs = awkward_ids(rng, core.gen_ids(rng, n, "O"))
+    samp = awkward_ids(rng, core.gen_ids(rng, m, "S"))
     return {"obs": obs, "samp": samp, "rows": gen_grid(rng, n, m),
             "omd": gen_axis_md(rng, obs, rng.choice(["full", "full", "partial", "none", "sparse"])),
             "smd": gen_axis_md(rng, samp, rng.choice(["full", "full", "partial", "none", "sparse"])),
@@ -84,7 +100,7 @@ def gen_spec(rng, max_n, max_m):
 
 
 HISTORIES = ["none", "none", "copy", "transpose2", "reverse_axis", "reverse_other", "drop_one", "scale",
-             "part_of_partition", "collapsed"]
+             "part_of_partition", "collapsed", "warm_then_inplace", "warm_then_inplace"]
 
 
 def apply_history(rng, t, hist, axis):
@@ -107,6 +123,17 @@ def apply_history(rng, t, hist, axis):
         return t.filter([i for i in ids if i != drop], axis=axis, inplace=False)
     if hist == "scale":
         return t.transform(lambda v, i, m: v * 2.0, axis=axis, inplace=False)
+    if hist == "warm_then_inplace":
+        # (ii) caches keyed by object identity: run the operations once, change the SAME table in place
+        # (matrix / ID arrays / metadata objects stay), the checked call must see the current content
+        for ax in rng.sample(["sample", "observation"], 2):
+            list(t.partition(lambda i, m: i[-1], axis=ax))
+            t.collapse(lambda i, m: "g%d" % (len(i) % 2), axis=ax, norm=False)
+            if t.metadata(axis=ax) is not None:
+                t.collapse(lambda i, m: iter([("p", "b")]), axis=ax, norm=False, one_to_many=True)
+        for _ in range(rng.randint(1, 2)):
+            inplace_change(rng, t, rng.choice(["sample", "observation"]))
+        return t
     if hist == "part_of_partition":
         parts = list(t.partition(lambda i, m: i[-1] < "h", axis=other))
         p = rng.choice(parts)[1]
@@ -145,13 +172,19 @@ def labeler(name, arg, ids):
         return lambda i, m: None
     if name == "mixed_list_tuple":
         return lambda i, m: [i[-1]] if pos[i] % 2 else (i[-1],)
+    if name == "falsy_mix":
+        # falsy labels are labels: only None is dropped by ignore_none
+        return lambda i, m: [0, "", [], None, "a", ()][(pos[i] + arg) % 6]
+    if name == "long_label":
+        # the label becomes an ID longer than every existing one, non-ASCII, ending in a blank
+        return lambda i, m: "L" + "x" * 50 + "é" + str(pos[i] % arg) + " "
     raise ValueError(name)
 
 
 def gen_labeler(rng, ids, md, for_collapse):
-    names = ["last_char", "const", "identity", "pos_mod", "pos_mod", "none_some"]
+    names = ["last_char", "const", "identity", "pos_mod", "pos_mod", "none_some", "long_label"]
     if not for_collapse:
-        names += ["id_len", "list_of_id", "none_all", "mixed_list_tuple"]
+        names += ["id_len", "list_of_id", "none_all", "mixed_list_tuple", "falsy_mix", "falsy_mix"]
     if md is not None:
         keys = set.intersection(*[set(m.keys()) for m in md]) if md else set()
         if "grp" in keys:
@@ -165,8 +198,10 @@ def gen_labeler(rng, ids, md, for_collapse):
         name, arg = n.split(":")
     elif n == "const":
         name, arg = n, "all"
-    elif n == "pos_mod":
+    elif n in ("pos_mod", "long_label"):
         name, arg = n, rng.choice([2, 2, 3])
+    elif n == "falsy_mix":
+        name, arg = n, rng.randrange(6)
     elif n == "none_some":
         k = len(ids)
         name, arg = n, sorted(rng.sample(range(k), rng.randint(0, k)))
@@ -204,7 +239,7 @@ def gen_dict_form(rng, ids):
     if rng.random() < 0.06:
         return {}, {"kind": rng.choice(["id2grp", "grp2ids"]), "map": []}
     groups = ["ga", "gb", "gc"]
-    pool = list(ids) + ["unknown-id"]
+    pool = list(ids) + ["unknown-id"] + core.tricky_unknown_ids(ids)[:rng.randint(0, 3)]
     if rng.random() < 0.5:
         chosen = [i for i in pool if rng.random() < 0.7] or [pool[0]]
         rng.shuffle(chosen)
@@ -308,57 +343,217 @@ def canon_axis_md(md):
     return out
 
 
-def collapsed_obs(c, axis):
-    o = core.table_obs(c)
-    key = "smd" if axis == "sample" else "omd"
-    o[key] = canon_axis_md(c.metadata(axis=axis))
-    return o
-
-
 def input_obs(t):
-    o = core.table_obs(t)
+    return positional_obs(t)
+
+
+def canon_entry(m):
+    return canon_axis_md([m])[0]
+
+
+def obs_by_id(tab):
+    """three readings of a table taken ONLY through its own by-ID lookups, on both axes:
+    `cells` (get_value_by_ids), `rows` (data(id, 'observation')), `cols` (data(id, 'sample'));
+    metadata by metadata(id, axis); index/exists must agree with the position in ids()"""
+    oids = list(tab.ids(axis="observation"))
+    sids = list(tab.ids())
+    for ax, ids in (("observation", oids), ("sample", sids)):
+        for k, i in enumerate(ids):
+            if not tab.exists(i, axis=ax):
+                raise LookupError("exists(%r, %s) is False" % (i, ax))
+            if tab.index(i, ax) != k:
+                raise LookupError("index(%r, %s) = %r, position %d" % (i, ax, tab.index(i, ax), k))
+    omd = [tab.metadata(i, axis="observation") for i in oids]
+    smd = [tab.metadata(i, axis="sample") for i in sids]
+    base = {"obs": [str(i) for i in oids], "samp": [str(i) for i in sids],
+            "omd": None if all(m is None for m in omd) else [canon_entry(m) for m in omd],
+            "smd": None if all(m is None for m in smd) else [canon_entry(m) for m in smd],
+            "type": tab.type}
+    cells = [[core.frac(tab.get_value_by_ids(o, s_)) for s_ in sids] for o in oids]
+    rows = [[core.frac(x) for x in tab.data(o, axis="observation", dense=True)] for o in oids]
+    cols_t = [[core.frac(x) for x in tab.data(s_, axis="sample", dense=True)] for s_ in sids]
+    cols = [[cols_t[j][k] for j in range(len(sids))] for k in range(len(oids))]
+    return {"cells": dict(base, rows=cells), "rows": dict(base, rows=rows), "cols": dict(base, rows=cols)}
+
+
+def positional_obs(tab):
+    o = core.table_obs(tab)
+    o["omd"] = canon_axis_md(tab.metadata(axis="observation"))
+    o["smd"] = canon_axis_md(tab.metadata(axis="sample"))
     return {k: o[k] for k in ("obs", "samp", "rows", "omd", "smd", "type")}
 
 
-def run_real(t, axis, op, pyf):
-    """run the real code; returns the outcome JSON"""
+def observe(tab, what, lookups):
+    """the observation of a table that came out of the call: FIRST through its own by-ID lookups (before any
+    other accessor touches it), then by position; `holds` is evaluated on the by-ID reading and Lean demands
+    that all readings agree (clauses own_lookups.*)"""
+    if len(tab.ids()) == 0 or len(tab.ids(axis="observation")) == 0:
+        return positional_obs(tab)          # nothing can be addressed by ID
+    if any(not isinstance(i, str) for i in list(tab.ids()) + list(tab.ids(axis="observation"))):
+        return positional_obs(tab)          # a collapse label None became the ID None: not addressable by ID
     try:
-        if op["op"] == "partition":
-            parts = []
-            for lab, tab in t.partition(pyf, axis=axis, remove_empty=op["remove_empty"],
-                                        ignore_none=op["ignore_none"]):
-                parts.append({"label": label_json(lab), "table": input_obs(tab)})
-            return {"parts": parts}
-        if op["op"] == "collapse":
-            c = t.collapse(pyf, norm=op["norm"], min_group_size=op["min_group_size"],
-                           include_collapsed_metadata=op["icm"], axis=axis)
-        else:
-            c = t.collapse(pyf, norm=False, one_to_many=True, one_to_many_mode=op["mode"],
-                           strict=op["strict"], include_collapsed_metadata=op["icm"],
-                           one_to_many_md_key=op["md_key"], axis=axis)
-        o = collapsed_obs(c, axis) if op["op"] == "collapse" else core.table_obs(c)
+        by = obs_by_id(tab)
+    except Exception as e:
+        lookups.append({"what": "%s:by-id-lookup-raised:%s" % (what, type(e).__name__),
+                        "positional": positional_obs(tab), "by_id": BROKEN})
+        return positional_obs(tab)
+    pos = positional_obs(tab)
+    for k in ("cells", "rows", "cols"):
+        lookups.append({"what": "%s:%s" % (what, k), "positional": pos, "by_id": by[k]})
+    return by["cells"]
+
+
+BROKEN = {"obs": ["<by-ID lookup raised>"], "samp": [], "rows": [], "omd": None, "smd": None, "type": None}
+
+
+@contextlib.contextmanager
+def profile(name):
+    import biom.err
+    if name is None:
+        yield
+        return
+    with warnings.catch_warnings():
+        warnings.simplefilter("ignore")
+        with biom.err.errstate(empty=name):
+            yield
+
+
+def run_real(t, axis, op, pyf, prof=None):
+    """run the real code; returns (outcome JSON, lookup pairs, live result tables)"""
+    lookups, live = [], []
+    try:
+        with profile(prof):
+            if op["op"] == "partition":
+                parts = []
+                for k, (lab, tab) in enumerate(t.partition(pyf, axis=axis, remove_empty=op["remove_empty"],
+                                                           ignore_none=op["ignore_none"])):
+                    live.append(tab)
+                    parts.append({"label": label_json(lab), "table": observe(tab, "part%d" % k, lookups)})
+                return {"parts": parts}, lookups, live
+            kw = {}
+            if op.get("collapse_f") == "explicit_sum":
+                kw["collapse_f"] = lambda tb, ax: tb.sum(ax)
+            if op["op"] == "collapse":
+                c = t.collapse(pyf, norm=op["norm"], min_group_size=op["min_group_size"],
+                               include_collapsed_metadata=op["icm"], axis=axis, **kw)
+            else:
+                c = t.collapse(pyf, norm=False, one_to_many=True, one_to_many_mode=op["mode"],
+                               strict=op["strict"], include_collapsed_metadata=op["icm"],
+                               one_to_many_md_key=op["md_key"], axis=axis)
+        live.append(c)
+        o = observe(c, "result", lookups)
         shape = [int(c.matrix_data.shape[0]), int(c.matrix_data.shape[1])]
-        return {"table": {k: o[k] for k in ("obs", "samp", "rows", "omd", "smd", "type")}, "shape": shape}
+        return {"table": o, "shape": shape}, lookups, live
     except Exception as e:  # the error class is the observation
-        return {"error": core.err_name(e)}
+        return {"error": core.err_name(e)}, lookups, live
 
 
-def check(ctx, t, axis, op, pyf, tags, meta, nontrivial):
+def has_empty_table(out):
+    if "parts" in out:
+        return any(not p["table"]["obs"] or not p["table"]["samp"] for p in out["parts"])
+    if "table" in out:
+        return not out["table"]["obs"] or not out["table"]["samp"]
+    return False
+
+
+def receiver_reading(t):
+    """the receiver as its own by-ID lookups answer (falls back to None when they raise)"""
+    if any(not isinstance(i, str) for i in list(t.ids()) + list(t.ids(axis="observation"))):
+        return positional_obs(t)
+    try:
+        return obs_by_id(t)["cells"]
+    except Exception as e:
+        return {"by-id-lookup-raised": type(e).__name__}
+
+
+INPLACE = ["transform", "update_ids", "md_mutation"]
+
+
+def inplace_change(rng, x, axis):
+    """an in-place update that keeps the matrix / ID-array / metadata objects of `x` alive"""
+    c = rng.choice(INPLACE)
+    if c == "transform":
+        x.transform(lambda v, i, m: v * 2.0, axis=axis, inplace=True)
+    elif c == "update_ids":
+        ids = list(x.ids(axis=axis))
+        if any(not isinstance(i, str) for i in list(x.ids()) + list(x.ids(axis="observation"))):
+            ids = []                                   # a collapsed table whose label was None: not renameable
+            c = "update_ids-skipped"
+        if ids:
+            k = rng.randrange(len(ids))
+            x.update_ids({ids[k]: str(ids[k]) + "_renamed_" + "y" * 30}, axis=axis, strict=False, inplace=True)
+    else:
+        md = x.metadata(axis=axis)
+        if md is not None and len(md):
+            md[rng.randrange(len(md))]["mutated"] = "zz"
+    return c
+
+
+def check(ctx, t, axis, op, pyf, tags, meta, nontrivial, rng=None, stress=True):
+    prof = None
+    alias = False
+    if rng is not None and stress:
+        done = core.poke_layout(t, rng) if rng.random() < 0.5 else []      # (i) layout left behind
+        if done:
+            ctx.count("stress:poked_layout")
+        c = rng.random()
+        if c < 0.10:
+            prof = rng.choice(["warn", "call"])                            # (viii) non-default profile
+        elif c < 0.16:
+            prof = "raise"
+        alias = rng.random() < 0.12                                        # (vii)
     tin = input_obs(t)
-    out = run_real(t, axis, op, pyf)
-    case = dict(op, axis=axis, table=tin, out=out)
+    out, lookups, live = run_real(t, axis, op, pyf, None if prof == "raise" else prof)
+    case = dict(op, axis=axis, table=tin, out=out, lookups=lookups)
     ctx.case({"op": op, "axis": axis, "table": tin}, nontrivial=nontrivial)
     r = ctx.driver.ask(case)
-    replayable = dict(case, meta=meta)
+    replayable = dict(op, axis=axis, table=tin, out=out, meta=dict(meta, profile=prof))
     ctx.count("op=%s" % op["op"])
     ctx.count("outcome=%s" % ("error:" + out["error"] if "error" in out else "ok"))
+    if prof:
+        ctx.count("stress:profile=%s" % prof)
     if not r["model_holds"]:
         ctx.diverge(replayable, "theorem model_holds contradicted by the driver", tags)
     if not r["holds"]:
-        ctx.fail(replayable, r["clause"], tags, detail={"model": r["model"]})
+        cl = r["clause"]
+        if cl and cl.startswith("own_lookups."):
+            cl = "own_lookups"
+        ctx.fail(replayable, cl, tags, detail={"model": r["model"], "clause": r["clause"]})
     elif not r["agree"]:
         ctx.diverge(replayable, "outcome differs from the model", tags, detail={"model": r["model"]})
+    # (viii) the receiver is unchanged and still answers through its own lookups -- always after a refusal
+    if "error" in out or (rng is not None and rng.random() < 0.2):
+        after = receiver_reading(t)
+        if after != tin_by_id_form(tin):
+            ctx.fail(replayable, "receiver.unchanged", tags, detail={"after": after})
+        ctx.count("stress:receiver_reread")
+    # (viii) empty='raise': the same outcome, or TableException exactly when an empty table would come out
+    if prof == "raise":
+        out2, lk2, _ = run_real(t, axis, op, pyf, "raise")
+        want = {"error": "TableException"} if has_empty_table(out) else out
+        if out2 != want or any(l["by_id"] is BROKEN for l in lk2):
+            ctx.fail(replayable, "profile.raise", tags, detail={"under_raise": out2, "default": out})
+        if receiver_reading(t) != tin_by_id_form(tin):
+            ctx.fail(replayable, "receiver.unchanged", tags)
+    # (vii) no aliasing: an in-place update of one derived table leaves the source and the others alone
+    if alias and live:
+        before = [receiver_reading(x) if (len(x.ids()) and len(x.ids(axis="observation"))) else positional_obs(x)
+                  for x in live]
+        k = rng.randrange(len(live))
+        what = inplace_change(rng, live[k], rng.choice(["sample", "observation"]))
+        if receiver_reading(t) != tin_by_id_form(tin):
+            ctx.fail(replayable, "aliasing.source_changed", tags, detail={"update": what})
+        for j, x in enumerate(live):
+            if j != k:
+                now = receiver_reading(x) if (len(x.ids()) and len(x.ids(axis="observation"))) else positional_obs(x)
+                if now != before[j]:
+                    ctx.fail(replayable, "aliasing.other_part_changed", tags, detail={"update": what})
+        ctx.count("stress:aliasing_probe=%s" % what)
     return r, out
+
+
+def tin_by_id_form(tin):
+    return tin
 
 
 def axis_md(t, axis):
@@ -366,7 +561,7 @@ def axis_md(t, axis):
     return None if md is None else [dict(m) for m in md]
 
 
-def do_partition(ctx, rng, t, axis, tags, meta):
+def do_partition(ctx, rng, t, axis, tags, meta, wide=False):
     ids = [str(i) for i in t.ids(axis=axis)]
     md = axis_md(t, axis)
     re_, ign = rng.random() < 0.35, rng.random() < 0.4
@@ -375,15 +570,24 @@ def do_partition(ctx, rng, t, axis, tags, meta):
         lab_kind = fj["kind"]
     else:
         name, arg = gen_labeler(rng, ids, md, False)
+        while wide and name in ("identity", "list_of_id", "mixed_list_tuple", "id_len"):
+            name, arg = gen_labeler(rng, ids, md, False)
         f = labeler(name, arg, ids)
         labels = [f(i, (md[k] if md is not None else None)) for k, i in enumerate(ids)]
         fj = {"kind": "results", "labels": [label_json(v) for v in labels]}
         pyf = f
         lab_kind = name
     op = {"op": "partition", "f": fj, "remove_empty": re_, "ignore_none": ign}
-    r, out = check(ctx, t, axis, op, pyf, tags, dict(meta, labeler=lab_kind), nontrivial=len(ids) >= 2)
+    r, out = check(ctx, t, axis, op, pyf, tags, dict(meta, labeler=lab_kind), nontrivial=len(ids) >= 2, rng=rng)
     ctx.count("labeler=%s" % lab_kind)
     ctx.count("partition:remove_empty=%s,ignore_none=%s" % (re_, ign))
+    if ign and fj["kind"] == "results" and any(l is not None and l in ({"i": 0}, {"s": ""}, {"l": []}, {"t": []})
+                                               for l in fj["labels"]):
+        ctx.count("partition:falsy_label_with_ignore_none")
+    if fj["kind"] != "results" and md is not None and pyf:
+        mentioned = set(pyf) if fj["kind"] == "id2grp" else set(x for v in pyf.values() for x in v)
+        if any(i not in mentioned for i in ids):
+            ctx.count("partition:dict_leaves_ids_unmentioned_on_axis_with_metadata")
     if "parts" in out:
         ctx.count("parts=%d" % min(len(out["parts"]), 6))
         key = "smd" if axis == "sample" else "omd"
@@ -392,24 +596,32 @@ def do_partition(ctx, rng, t, axis, tags, meta):
             ctx.count("partition:part_of_only_metadata_free_ids_has_no_metadata")
 
 
-def do_collapse(ctx, rng, t, axis, tags, meta):
+def do_collapse(ctx, rng, t, axis, tags, meta, wide=False):
     ids = [str(i) for i in t.ids(axis=axis)]
     md = axis_md(t, axis)
-    norm = rng.random() < 0.5
-    mgs = rng.choice([1, 1, 1, 2, 2, 3])
+    norm = rng.random() < 0.5 and not wide          # wide groups: member counts need not divide 840
+    mgs = rng.choice([1, 1, 1, 2, 2, 3]) if not wide else rng.choice([1, 2, 3, 33, 64, 200])
     icm = rng.random() < 0.75
     if rng.random() < 0.2:
         pyf, fj = gen_dict_form(rng, ids)
         lab_kind = fj["kind"]
     else:
         name, arg = gen_labeler(rng, ids, md, True)
+        while wide and name == "identity":
+            name, arg = gen_labeler(rng, ids, md, True)
         f = labeler(name, arg, ids)
         labels = [f(i, (md[k] if md is not None else None)) for k, i in enumerate(ids)]
         fj = {"kind": "results", "labels": [label_json(v) for v in labels]}
         pyf = f
         lab_kind = name
     op = {"op": "collapse", "f": fj, "norm": norm, "min_group_size": mgs, "icm": icm}
-    r, out = check(ctx, t, axis, op, pyf, tags, dict(meta, labeler=lab_kind), nontrivial=len(ids) >= 2)
+    if rng.random() < 0.15:
+        op["collapse_f"] = "explicit_sum"           # (vi) the optional reducer, spelled out
+        ctx.count("collapse:collapse_f_given")
+    r, out = check(ctx, t, axis, op, pyf, tags, dict(meta, labeler=lab_kind), nontrivial=len(ids) >= 2, rng=rng)
+    nt = len(t.ids(axis="observation")) != len(t.ids())
+    if mgs >= 2 and nt:
+        ctx.count("collapse:min_group_size>=2_on_non_square_axis=%s" % axis)
     ctx.count("labeler=%s" % lab_kind)
     ctx.count("collapse:norm=%s,min_group_size=%d" % (norm, mgs))
     if "table" in out:
@@ -435,7 +647,7 @@ def do_otm(ctx, rng, t, axis, tags, meta):
     events = otm_events(kind, level, scripts, ids, md)
     op = {"op": "otm", "events": events, "mode": mode, "strict": strict, "icm": icm, "md_key": key}
     m2 = dict(meta, gen=kind, scripts={k: v for k, v in (scripts or {}).items()})
-    r, out = check(ctx, t, axis, op, pyf, tags, m2, nontrivial=any(e for e in events))
+    r, out = check(ctx, t, axis, op, pyf, tags, m2, nontrivial=any(e for e in events), rng=rng)
     ctx.count("otm:gen=%s,mode=%s,strict=%s" % (kind, mode, strict))
     counts = [len([x for x in e if x is not None]) for e in events]
     ctx.count("otm:max_groups_per_vector=%d" % min(max(counts or [0]), 4))
@@ -482,6 +694,107 @@ def corpus(ctx):
     ctx.count("corpus:docstrings", 2)
 
 
+def corpus_thresholds(ctx):
+    """min_group_size against group sizes on NON-square tables, both axes (the threshold is about the members
+    of the group on the collapsed axis, not about the other axis' length)"""
+    import numpy as np
+    from biom import Table
+    for n, m in ((2, 5), (5, 2), (3, 4)):
+        arr = np.array([[840.0 * ((i * m + j) % 4) for j in range(m)] for i in range(n)])
+        t = Table(arr, ["o%d" % i for i in range(n)], ["s%d" % j for j in range(m)],
+                  [{"k": "v%d" % i} for i in range(n)], [{"k": "w%d" % j} for j in range(m)])
+        for axis in ("sample", "observation"):
+            ids = [str(i) for i in t.ids(axis=axis)]
+            for modk in (1, 2):
+                labels = ["g%d" % (k % modk) for k in range(len(ids))]
+                lut = dict(zip(ids, labels))
+                for mgs in (2, 3, 4, 5, 6):
+                    op = {"op": "collapse", "f": {"kind": "results", "labels": [label_json(l) for l in labels]},
+                          "norm": mgs % 2 == 0 and len(ids) % 3 != 0, "min_group_size": mgs, "icm": True}
+                    if op["norm"] and any(c not in (1, 2, 4) for c in
+                                          [labels.count(g) for g in set(labels)]):
+                        op["norm"] = False
+                    check(ctx, t, axis, op, lambda i, md, lut=lut: lut[i], ("corpus", "thresholds"),
+                          {"corpus": "thresholds"}, True)
+    ctx.count("corpus:thresholds_non_square")
+
+
+def early_unusual_calls():
+    """(v) process-level state: unusual optional arguments early in the run must not colour later default calls"""
+    import numpy as np
+    from biom import Table
+    t = Table(np.array([[1., 2, 0], [3, 4, 5]]), ["a", "b"], ["x", "y", "z"],
+              [{"p": [["A", "K"]]}, {"p": [["A"]]}], [{"g": "1"}, {"g": "1"}, {"g": "2"}])
+    t.collapse(lambda i, m: m["g"], collapse_f=lambda tb, ax: np.asarray(tb.max(ax), dtype=float), norm=True,
+               min_group_size=2, include_collapsed_metadata=False)
+    t.collapse(lambda i, m: ((p, p[-1]) for p in m["p"]), norm=False, one_to_many=True,
+               one_to_many_mode="divide", one_to_many_md_key="Odd key", axis="observation")
+    try:
+        t.collapse(lambda i, m: ((p, p[1]) for p in m["p"]), norm=False, one_to_many=True, strict=True,
+                   axis="observation")
+    except IndexError:
+        pass
+    list(t.partition({"q": ("x", "z"), "r": ["y"]}, remove_empty=True, ignore_none=True))
+    list(t.partition({"a": "q"}, axis="observation"))
+
+
+def error_paths(ctx):
+    """(vi)/(viii) refusals outside the model's vocabulary: right exception class, receiver unchanged and coherent"""
+    import numpy as np
+    from biom import Table
+    from biom.exception import UnknownAxisError
+    t = Table(np.array([[840., 0, 1680], [0, 840, 0]]), ["a", "b"], ["x", "y", "z"],
+              [{"g": "1"}, {"g": "2"}], [{"g": "1"}, {"g": "1"}, {"g": "2"}])
+    before = receiver_reading(t)
+    f = lambda i, m: m["g"]
+    it = lambda i, m: iter([("p", "b")])
+    cases = [
+        ("bad_mode", ValueError, lambda: t.collapse(it, norm=False, one_to_many=True, one_to_many_mode="bogus")),
+        ("bad_mode_one_to_one", ValueError, lambda: t.collapse(f, norm=False, one_to_many_mode="Add")),
+        ("collapse_bad_axis", UnknownAxisError, lambda: t.collapse(f, axis="samples")),
+        ("partition_bad_axis", UnknownAxisError, lambda: list(t.partition(f, axis="obs"))),
+        ("norm_with_one_to_many", AttributeError, lambda: t.collapse(it, one_to_many=True)),
+        ("dict_of_ints", ValueError, lambda: list(t.partition({"x": 1}))),
+        ("empty_dict", IndexError, lambda: list(t.partition({}))),
+    ]
+    for name, exc, call in cases:
+        got = None
+        try:
+            call()
+        except Exception as e:
+            got = e
+        ctx.case({"error_path": name}, nontrivial=True)
+        case = {"error_path": name, "got": type(got).__name__ if got is not None else None}
+        if not isinstance(got, exc):
+            ctx.fail(case, "error_path." + name, ("error-path",))
+        if receiver_reading(t) != before:
+            ctx.fail(case, "receiver.unchanged", ("error-path",))
+        ctx.count("error_path:%s" % name)
+
+
+def wide_cases(ctx, rng, n):
+    """(iv) size thresholds: >= 64 IDs on the axis worked on (and on the other one), IDs given in non-axis order"""
+    for k in range(n):
+        axis = rng.choice(["sample", "observation"])
+        wide_axis = axis if k % 3 else ("observation" if axis == "sample" else "sample")
+        spec = core.wide_spec(rng, axis=wide_axis, md=False)
+        spec["rows"] = [[BASE * v for v in r] for r in spec["rows"]]
+        spec["omd"] = gen_axis_md(rng, spec["obs"], "partial")
+        spec["smd"] = gen_axis_md(rng, spec["samp"], "partial")
+        route = rng.choice(core.ROUTES)
+        t = core.build(spec, route, rng)
+        meta = {"spec": "wide", "route": route, "history": "none"}
+        tags = ("wide", "route=" + route)
+        ctx.count("wide:axis_worked_on_is_wide=%s" % (axis == wide_axis))
+        c = k % 3
+        if c == 0:
+            do_partition(ctx, rng, t, axis, tags, meta, wide=True)
+        elif c == 1:
+            do_collapse(ctx, rng, t, axis, tags, meta, wide=True)
+        else:
+            do_otm(ctx, rng, t, axis, tags, meta)
+
+
 # ----------------------------------------------------------------------------- driver
 def one_random(ctx, rng, max_n, max_m):
     spec = gen_spec(rng, max_n, max_m)
@@ -520,12 +833,16 @@ def run(ctx):
                    "values are multiples of 840/8 so that every sum and division is exact in binary64"]
     ctx.assumptions = ["start tables have at least one observation and one sample (C11 domain)",
                        "labels of a collapse are strings / None (they become IDs)"]
+    early_unusual_calls()
     corpus(ctx)
+    corpus_thresholds(ctx)
+    error_paths(ctx)
     rng = ctx.rng
     if ctx.quick():
-        n, max_n, max_m = 5000, 6, 6
+        n, max_n, max_m, n_wide = 2600, 6, 6, 12
     else:
-        n, max_n, max_m = 110000, 8, 8
+        n, max_n, max_m, n_wide = 60000, 8, 8, 300
+    wide_cases(ctx, rng, n_wide)
     for _ in range(n):
         one_random(ctx, rng, max_n, max_m)
 
@@ -541,7 +858,17 @@ def replay(ctx, rec):
     def unmd(md):
         if md is None:
             return None
-        return [{k: json.loads(v) for k, v in e.items()} for e in md]
+        def val(k, v):
+            if k == "collapsed_ids":
+                try:
+                    x = json.loads(v)
+                    if isinstance(x, list):
+                        return x
+                except Exception:
+                    pass
+                return v.split(SEP)
+            return json.loads(v)
+        return [{k: val(k, v) for k, v in e.items()} for e in md]
     arr = np.array([[float(Fraction(x)) for x in r] for r in tin["rows"]], dtype=float).reshape(
         len(tin["obs"]), len(tin["samp"]))
     t = Table(arr, tin["obs"], tin["samp"], unmd(tin["omd"]), unmd(tin["smd"]), type=tin["type"])
